@@ -28,7 +28,7 @@ def plan(tier):
                 'acknowledged on that database; after every acknowledged Destroy 12 probes by 3 identities must answer '
                 'exactly as for a never-issued identifier, Locate must not list it, and all other objects must be '
                 'unchanged; a cell is (creating operation, after-restart kind) / (probe, identity)',
-        'min_monitor': {'destroys_acknowledged_beside_other_clients': 100, 'identifiers_issued': 1000, 'destroys_acknowledged': 300, 'post_destroy_probes': 3000,
+        'min_monitor': {'destroys_acknowledged_beside_other_clients': 100, 'objects_born_and_destroyed_in_one_batch': 50, 'identifiers_issued': 1000, 'destroys_acknowledged': 300, 'post_destroy_probes': 3000,
                         'restarts': 100, 'bystander_checks': 300, 'batches_with_a_failing_last_item': 150},
         'assumptions': ['an identifier counts as issued when a success response carrying it reached the client',
                         'a child killed inside a request may or may not have committed it; identifiers it never '
@@ -180,7 +180,7 @@ def run_case(ctx, case):
                 version = rng.choice(rig.VERSIONS)
                 act = rng.choice(('create', 'create', 'register', 'register', 'create_key_pair', 'derive', 'destroy',
                                   'destroy', 'destroy', 'destroy_newest_then_create', 'restart', 'abandon', 'kill',
-                                  'lifecycle', 'lifecycle', 'locked', 'batch', 'batch'))
+                                  'lifecycle', 'lifecycle', 'locked', 'batch', 'batch', 'born-and-destroyed'))
                 if act == 'create':
                     r = srv.send([op_create(policy='open' if version < (2, 0) else None, names=['k%d' % step])], ident, version)
                     if r.error is None and r.ok():
@@ -324,6 +324,43 @@ def run_case(ctx, case):
                                                   'failed (%s); no such object is stored' % (label, u, items[-1][0]), {'answers': r.brief()})
                                 else:
                                     live[u] = ident[0]
+                elif act == 'born-and-destroyed':
+                    # one request creates an object, destroys it and refers to it again (by the identifier it was given - the
+                    # next one in sequence - and through the ID placeholder): from the acknowledged Destroy on the identifier
+                    # is dead, inside the batch as afterwards
+                    nxt = str(max(int(u) for u in issued) + 1)
+                    items = [rng.choice((('Create', op_create(names=['bd%d' % step])),
+                                         ('Register', op_register('secret', secret_data(b'bd-%d' % step), common_attrs(names=['bdr%d' % step])))))]
+                    if rng.random() < 0.5:
+                        items.append(('use', rng.choice((op_get(None), op_get_attributes(nxt), op_get(nxt)))))
+                    items.append(('Destroy', op_destroy(nxt)))
+                    for _ in range(rng.randrange(1, 4)):
+                        items.append(('after', rng.choice((op_get(None), op_get(nxt), op_get_attributes(nxt), op_get_attributes(None),
+                                                           op_get_attribute_list(nxt), op_activate(nxt), op_locate([rig.attr(E.AttributeType.NAME, name_value('bd%d' % step))])))))
+                    try:
+                        r = srv.send([it[1] for it in items], ident, version, error_option=E.BatchErrorContinuationOption.CONTINUE)
+                    except Exception:
+                        continue
+                    if r.error is not None or len(r.items) != len(items) or not r.ok(0) or r.uid(0) != nxt:
+                        if r.error is None and r.ok(0):
+                            for u in [k[2] for k in r.payload(0)[2] if k[1] == T.TEXT]:
+                                new_uid(u, items[0][0] + '(batch)')
+                                live[u] = ident[0]
+                        continue
+                    new_uid(nxt, items[0][0] + '(batch)')
+                    di = [i for i, it in enumerate(items) if it[0] == 'Destroy'][0]
+                    if not r.ok(di):
+                        live[nxt] = ident[0]
+                        continue
+                    ctx.count('destroys_acknowledged')
+                    ctx.count('objects_born_and_destroyed_in_one_batch')
+                    destroyed.add(nxt)
+                    for i in range(di + 1, len(items)):
+                        ctx.count('post_destroy_probes')
+                        if r.ok(i) and (items[i][1][0] != E.Operation.LOCATE or nxt in r.uids(i)):
+                            ctx.violation('alive-in-batch:%s' % items[i][1][0].name.lower(), 'item %d (%s) of the batch that destroyed %s in item %d '
+                                          'still finds it' % (i + 1, items[i][1][0].name, nxt, di + 1), {'answers': r.brief()})
+                    check_dead(ctx, srv, nxt, helper, rng)
                 elif act == 'locked':
                     # a transient storage fault: another connection is reading the file, the COMMIT of this request finds
                     # the database locked.  Whatever the server then answers, an acknowledged Destroy has destroyed and
